@@ -14,9 +14,9 @@ extern int hfc_dispatch(int idx); /* harness: behaviour of fibre idx on this dis
 #define NF 3 /* 0 = event handling fibre, 1 = yielder, 2 = sleeper */
 static fibre_eventq_t *evq;
 static fibre_t *plain; /* fibres 1 and 2 */
-static uint32_t *evbuf;
+static uint8_t *evbuf; /* depth slots of evsize bytes; an event is a uint32_t id at the start of its slot */
 static uint8_t *evblock;
-static unsigned evdepth;
+static unsigned evdepth, evsize = 4;
 
 static int idx_of(fibre_t *f)
 {
@@ -27,24 +27,27 @@ static int idx_of(fibre_t *f)
 static fibre_t *fibre_of(int i) { return i == 0 ? &evq->fibre : &plain[i - 1]; }
 static int body(fibre_t *f) { return hfc_dispatch(idx_of(f)); }
 
-void afc_setup(unsigned depth)
+void afc_setup2(unsigned depth, unsigned size);
+void afc_setup(unsigned depth) { afc_setup2(depth, 4); }
+void afc_setup2(unsigned depth, unsigned size)
 {
 	free(evq);
 	free(plain);
 	free(evblock);
 	evdepth = depth;
+	evsize = size;
 	evq = malloc(sizeof *evq);
 	plain = malloc(2 * sizeof *plain);
 	/* the storage sits in the middle of a block of its own, so that the +-64 byte zone the bounds check
 	 * watches belongs to nobody else */
-	evblock = malloc(depth * sizeof *evbuf + 128);
-	memset(evblock, 0xC7, depth * sizeof *evbuf + 128);
-	evbuf = (uint32_t *)(evblock + 64);
+	evblock = malloc((size_t)depth * evsize + 128);
+	memset(evblock, 0xC7, (size_t)depth * evsize + 128);
+	evbuf = evblock + 64;
 	fibre_verif_reset();
-	fibre_eventq_init(evq, body, evbuf, depth * sizeof *evbuf, sizeof *evbuf);
+	fibre_eventq_init(evq, body, evbuf, (size_t)depth * evsize, evsize);
 	fibre_init(&plain[0], body);
 	fibre_init(&plain[1], body);
-	vrt_register_buffer(evbuf, depth * sizeof *evbuf, "event-storage");
+	vrt_register_buffer(evbuf, (size_t)depth * evsize, "event-storage");
 }
 uint32_t afc_next(uint32_t t) { return fibre_scheduler_next(t); }
 void afc_run(int i) { fibre_run(fibre_of(i)); }
@@ -57,32 +60,39 @@ int afc_self(void)
 	return f ? idx_of(f) : -1;
 }
 /* event queue: slot index or -1 */
+static int slot_of(void *p)
+{
+	long o = (uint8_t *)p - evbuf;
+	if (o < 0 || o % evsize || o / evsize >= (long)evdepth)
+		return -2; /* not the start of one of the slots */
+	return (int)(o / evsize);
+}
 int afc_ev_claim(void)
 {
-	uint32_t *p = fibre_eventq_claim(evq);
-	return p ? (int)(p - evbuf) : -1;
+	void *p = fibre_eventq_claim(evq);
+	return p ? slot_of(p) : -1;
 }
 void afc_ev_fill(int slot, uint32_t id)
 {
-	evbuf[slot] = id;
-	vrt_plain_write(&evbuf[slot], sizeof evbuf[slot]);
+	memcpy(evbuf + (size_t)slot * evsize, &id, sizeof id);
+	vrt_plain_write(evbuf + (size_t)slot * evsize, sizeof id);
 }
-int afc_ev_send(int slot) { return fibre_eventq_send(evq, &evbuf[slot]); }
+int afc_ev_send(int slot) { return fibre_eventq_send(evq, evbuf + (size_t)slot * evsize); }
 int afc_ev_receive(uint32_t *id)
 {
-	uint32_t *p = fibre_eventq_receive(evq);
+	void *p = fibre_eventq_receive(evq);
 	if (!p)
 		return -1;
-	vrt_plain_read(p, sizeof *p);
-	*id = *p;
-	return (int)(p - evbuf);
+	vrt_plain_read(p, sizeof *id);
+	memcpy(id, p, sizeof *id);
+	return slot_of(p);
 }
-void afc_ev_release(int slot) { fibre_eventq_release(evq, &evbuf[slot]); }
+void afc_ev_release(int slot) { fibre_eventq_release(evq, evbuf + (size_t)slot * evsize); }
 int afc_ev_empty(void) { return fibre_eventq_empty(evq); }
 int afc_canaries_ok(void)
 {
 	for (int i = 0; i < 64; i++)
-		if (evblock[i] != 0xC7 || evblock[64 + evdepth * sizeof *evbuf + i] != 0xC7)
+		if (evblock[i] != 0xC7 || evblock[64 + (size_t)evdepth * evsize + i] != 0xC7)
 			return 0;
 	return 1;
 }
